@@ -28,6 +28,11 @@ func HarnessC16a() {
 	c, err := t.Clone(vctx)
 	verifAssert("C01.clone.err", err == nil)
 	verifAssert("C16.clone-reads-top-only", st.nLoad-n0 <= 1)
+	if verifBoundOr("KEEP", 0) == 1 {
+		// the operation runs on the in-process handle that has just been persisted: its root is a
+		// name and nothing is in memory, so the operation's own reads include the top node
+		c = *t0
+	}
 	k, v := verifNondetKey("k"), verifNondetVal("v")
 	switch verifChoose("op", 3) {
 	case 0:
